@@ -26,4 +26,12 @@ Proof.
   unfold accepts. now rewrite Hwf, Hr.
 Qed.
 
-Print Assumptions gen_accepted.
+
+(* hence no theorem of the form "every accepted trace satisfies ..." is vacuous on such a shape *)
+Corollary engine_nonvacuous sh :
+  shape_wf sh = true -> shape_ne sh = true ->
+  exists (tr : list event) (s : st), run sh init tr = Some s /\ released s = true.
+Proof.
+  intros Hwf Hne. destruct (gen_accepted sh (fun _ _ => OOk) Hwf Hne) as (s & H).
+  exists (gen sh (fun _ _ => OOk)), s. exact H.
+Qed.
